@@ -5,7 +5,7 @@ FAMILIES = ['timeout', 'shutdown', 'resize']
 PER_FAMILY = (600, 8000)
 
 
-PROOF = dict(prop_file='Props/C07.v', gen=['Ledger', 'Pool', 'Worker'], theorems=['C07_no_duplicate_execution', 'C07_token_unique', 'C07_sentinel_exit_holds_no_task', 'C07_idle_exit_is_not_a_break', 'C07_reap_refills_when_work_waits', 'C07_submit_registers_before_topping_up', 'C07_registered_job_always_has_a_worker_coming', 'C07_structure', 'C07_idle_exit_protocol'], tf_families=['timeout', 'shutdown', 'resize'], tf_per_family=(100, 1500),
+PROOF = dict(prop_file='Props/C07.v', gen=['Ledger', 'Pool', 'Worker', 'Flow'], theorems=['C07_no_duplicate_execution', 'C07_token_unique', 'C07_sentinel_exit_holds_no_task', 'C07_idle_exit_is_not_a_break', 'C07_reap_refills_when_work_waits', 'C07_submit_registers_before_topping_up', 'C07_registered_job_always_has_a_worker_coming', 'C07_structure', 'C07_idle_exit_protocol', 'C07_token_flow_follows_the_source'], tf_families=['timeout', 'shutdown', 'resize'], tf_per_family=(100, 1500),
              note="'never marked broken' and 're-spawn keeps work flowing' are decided by the simulation monitors (H2 is a known finding); the theorems cover no-duplicate / no-task-held-at-exit")
 
 
